@@ -445,6 +445,7 @@ func init() {
 		// (1) numbers and strings under every JSON rule
 		scalars := []string{"0", "1", "12", "18446744073709551615", "18446744073709551616", "-1", "-0", "1.5", "1e3", "1E2", "0.0", "1.0", "01", "+1", " 12 ", "\n12\t", "12 13", "12,", "1_000",
 			`"1KiB"`, `"1 KiB"`, `"1KiB"`, `"1 000 kB"`, `"1_000"`, `""`, `" "`, `"abc"`, `"1KiB  "`, `" 1KiB "`, `"-1"`, `"1.5KiB"`, `"16EiB"`, `"15EiB"`, `"0ZB"`, `"1ZB"`, `"1XB"`, `"18446744073709551616"`,
+			`"1\x30"`, `"\061\060"`, `"1\U00000030"`, `"10\x20KiB"`, `"1\a"`, `"\u0031\u0030"`, `"1\/0"`, `"1\'0"`,
 			`"1KiB`, `1KiB"`, `"1KiB""`, `"1KiB" "x"`, `'1KiB'`, "true", "false", "null", "[]", "[1]", `["1KiB"]`, `[{"value":1,"unit":"B"}]`, "{}", "{", "}", "", " ", "nul", `"\ud800"`, `"1\tKiB"`}
 		for i, s := range scalars {
 			if !d.Mine(i) {
